@@ -345,7 +345,31 @@ def _same(a, b, rel):
         if x == y:
             return True
         return abs(x - y) <= rel * max(abs(x), abs(y)) + 1e-12
+    if a[0] == 's' and a != b:
+        return _same_text(a[1], b[1], rel)
     return a == b
+
+
+_NUM_IN_TEXT = None
+
+
+def _same_text(x, y, rel):
+    """texts built by & from computed numbers ('-0.4999999-txt' vs '-0.4999999000000006-txt') differ by
+    float noise of the summation order (python's sum() compensates for exact floats only, and values
+    loaded from yaml/json are float subclasses): compare the numbers embedded in the text numerically"""
+    global _NUM_IN_TEXT
+    import re
+    if _NUM_IN_TEXT is None:
+        _NUM_IN_TEXT = re.compile(r'\d+\.\d+(?:[eE][-+]?\d+)?|\d+[eE][-+]?\d+')
+    px, py = _NUM_IN_TEXT.split(x), _NUM_IN_TEXT.split(y)
+    if px != py:
+        return False
+    nx, ny = _NUM_IN_TEXT.findall(x), _NUM_IN_TEXT.findall(y)
+    for u, v in zip(nx, ny):
+        fu, fv = float(u), float(v)
+        if fu != fv and abs(fu - fv) > max(rel, 1e-12) * max(abs(fu), abs(fv)):
+            return False
+    return True
 
 
 def same_outcome(a, b, rel=1e-9):
